@@ -750,7 +750,7 @@ func ruleLateFrames(p *Prog, r *Out) {
 		remember, disc := false, false
 		for _, s := range refuseIf.Body.List {
 			// unconditional when the branch itself is entered for HEADERS only
-			if squash(p.text(s)) == "markClosed(fr.Stream(),true)" && strings.Contains(squash(p.text(refuseIf.Cond)), "fr.Type()==FrameHeaders") {
+			if squash(p.text(s)) == "markClosed(fr.Stream(),true)" && (strings.Contains(squash(p.text(refuseIf.Cond)), "fr.Type()==FrameHeaders") || (strings.Contains(squash(p.text(refuseIf.Cond)), "&&newRequest") && p.newRequestDefined(hs, refuseIf))) {
 				remember = true
 			}
 			if ifs, ok := s.(*ast.IfStmt); ok {
